@@ -25,7 +25,7 @@ CLAIMS = {
          'first-goroutine pointers first, non-pointers never named, no other field changed), C15_consistent; correspondence on dumps scanned with NameArguments on/off', 'section 6 C15',
          'Coq proof against an executable specification + correspondence'),
  'C02': ('proof', 'C02_partition / C02_conservation (every handled line is forwarded, consumed or the rejected one; forwarded bytes are lines of the input in order; handled ++ suffix ++ unread = input, for EVERY schedule), '
-         'C02_no_dump_identity, C02_dump_contiguous (outside the dump only the two race-header lines can be withheld: the known finding K1, C02_K1_refuted); correspondence on forwarded bytes / remainder incl. the real pp binary; '
+         'C02_no_dump_identity, C02_dump_contiguous (outside the dump only the two race-header lines can be withheld: the known finding K1, C02_K1_refuted); correspondence on forwarded bytes / remainder incl. the real pp binary (pp end to end is modelled and compared in the mode -rebase=false, i.e. without path guessing and source analysis, which C18/C19 cover at library level; a default-mode run in an environment where no source exists must give the same output); '
          'K1 is reported as KNOWN-FINDING', 'section 6 C02', 'Coq proof over the scan loop (ghost-instrumented run relation) + correspondence + conservation oracle on the implementation output'),
  'C03': ('proof', 'C03_func_init_total, C03_parse_func_total, C03_scan_total (state invariant Inv preserved by every line, no Go panic modelled as GoResult), C03_scan_snapshot_total (for EVERY source: any schedule, zero reads, any terminal error; fuel never exhausted), '
          'C03_work_bounded; aggregation never panics by C04_partition; correspondence under recover() on grammar-aware mutants, resumed scanning, pp, aggregate, ToHTML. Partial: CPU time is not modelled, only iteration counts', 'section 6 C03',
@@ -67,7 +67,7 @@ CLAIMS = {
          'Partial: ambiguous layouts (one relative path under two roots) are outside the statement; the disk is an oracle (no symlinks, no "..")', 'section 6 C18',
          'Coq structural theorems for every disk + layout-generating differential oracle'),
  'C06': ('proof', 'C06_aggregate_oracle_independent (for well-formed snapshots the WHOLE result of Aggregate - buckets in order with merged signatures and id lists - is the same for any two permutation oracles, i.e. for every outcome of Go\'s randomised map iteration), '
-         'C06_step/agg_loop_oracle_independent, C06_nonwf_refuted (hand-built ill-formed snapshots CAN depend on the oracle), C06_render_snapshot_functional, C06_pipeline_functional (conditional on scanner output being well-formed: stated as a premise, not proved), '
+         'C06_step/agg_loop_oracle_independent, C06_nonwf_refuted (hand-built ill-formed snapshots CAN depend on the oracle), C06_render_snapshot_functional, C06_pipeline_functional, and C06b_scan_snapshot_wf / C06b_pipeline_oracle_independent (scanner output IS well-formed, so scan-then-aggregate is oracle independent unconditionally), '
          'with C18_update_deterministic / C18_get_files_canonical for path guessing; everything else is a Gallina function (no hidden state). Repeated-run correspondence: aggregate 8x, guess 7x, pp 3 processes, ToHTML 4x. '
          'Partial: absence of hidden package-level state in the Go code is only exercised (repeated runs in one process), not proved', 'section 6 C06',
          'Coq oracle-independence proof + repeated-execution differential check'),
